@@ -408,7 +408,40 @@ fn parse_case(line: &str) -> Option<Case> {
     if path == "self" && rule != Rule::AllowAll {
         return None;
     }
+    // deeper rules cannot be carried by a manifest (SBOR depth of the encoded instruction)
+    if (is_target_path(&path) && rule_depth(&rule) > 5) || rule_depth(&rule) > 7 {
+        return None;
+    }
     Some(Case { path, rule, nf, sim, ops })
+}
+
+fn comp_depth(c: &Comp) -> usize {
+    match c {
+        Comp::Basic(_) => 0,
+        Comp::Any(cs) | Comp::All(cs) => 1 + cs.iter().map(comp_depth).max().unwrap_or(0),
+    }
+}
+fn rule_depth(r: &Rule) -> usize {
+    match r {
+        Rule::Protected(c) => comp_depth(c),
+        _ => 0,
+    }
+}
+fn is_target_path(p: &str) -> bool {
+    matches!(p, "mint" | "owner" | "vault" | "acct")
+}
+/// `lim <rule>`: the rule alone, all tokens consumed
+fn parse_lim(line: &str) -> Option<Rule> {
+    let t: Vec<&str> = line.split(' ').filter(|s| !s.is_empty()).collect();
+    let mut t = Toks { t, i: 0 };
+    if t.next()? != "lim" {
+        return None;
+    }
+    let r = t.rule()?;
+    if t.i != t.t.len() {
+        return None;
+    }
+    Some(r)
 }
 
 // ------------------------------------------------------------------------------------------ oracle: the documented meaning
@@ -668,13 +701,61 @@ fn chain(depth: usize, leaf: Comp, any: bool) -> Comp {
     }
     c
 }
-fn gen_rule(rng: &mut Rng, max_depth: usize, max_nodes: usize) -> Rule {
+/// rules around the validation limits, for the unit-level `lim` op
+fn gen_lim_rule(rng: &mut Rng, max_depth: usize, max_nodes: usize) -> Rule {
+    let leaf = Comp::Basic(gen_basic(rng));
+    match rng.below(8) {
+        0 => Rule::Protected(chain(max_depth, leaf, rng.chance(1, 2))),
+        1 => Rule::Protected(chain(max_depth + 1, leaf, rng.chance(1, 2))),
+        2 => Rule::Protected(chain(rng.below(max_depth as u64 + 3) as usize, leaf, rng.chance(1, 2))),
+        3 | 4 => {
+            // k leaves under one node: k+1 nodes
+            let k = match rng.below(4) {
+                0 => max_nodes - 1,
+                1 => max_nodes,
+                2 => max_nodes - 2,
+                _ => rng.below(max_nodes as u64 + 8) as usize,
+            };
+            Rule::Protected(Comp::All((0..k).map(|_| leaf.clone()).collect()))
+        }
+        5 => {
+            // both limits at once: a deep spine with wide levels
+            let mut c = leaf.clone();
+            let d = max_depth - 1 + rng.below(3) as usize;
+            let w = 1 + rng.below(9) as usize;
+            for i in 0..d {
+                let mut cs = vec![c];
+                for _ in 0..w {
+                    cs.push(leaf.clone());
+                }
+                if rng.chance(1, 2) {
+                    cs.reverse();
+                }
+                c = if i % 2 == 0 { Comp::Any(cs) } else { Comp::All(cs) };
+            }
+            Rule::Protected(c)
+        }
+        6 => {
+            if rng.chance(1, 2) {
+                Rule::AllowAll
+            } else {
+                Rule::DenyAll
+            }
+        }
+        _ => {
+            let mut budget = 2 + rng.below(80) as i64;
+            Rule::Protected(gen_comp(rng, 0, &mut budget))
+        }
+    }
+}
+fn gen_rule(rng: &mut Rng, _max_depth: usize, max_nodes: usize) -> Rule {
     match rng.below(40) {
         0 => Rule::AllowAll,
         1 => Rule::DenyAll,
         // around the validation limits: depth max_depth (ok) / max_depth+1 (rejected)
-        2 => Rule::Protected(chain(max_depth, Comp::Basic(gen_basic(rng)), rng.chance(1, 2))),
-        3 => Rule::Protected(chain(max_depth + 1, Comp::Basic(gen_basic(rng)), rng.chance(1, 2))),
+        // deepest rules a manifest can carry
+        2 => Rule::Protected(chain(5, Comp::Basic(gen_basic(rng)), rng.chance(1, 2))),
+        3 => Rule::Protected(chain(4 + rng.below(2) as usize, Comp::Basic(gen_basic(rng)), rng.chance(1, 2))),
         // node count max_nodes (ok) / max_nodes+1 (rejected)
         4 | 5 => {
             let n = if rng.chance(1, 2) { max_nodes - 1 } else { max_nodes };
@@ -890,6 +971,11 @@ impl Area for A {
         let (md, mn) = limits();
         let mut left = n;
         while left > 0 {
+            if rng.chance(1, 12) {
+                left -= 1;
+                writeln!(out, "lim {}", show_rule(&gen_lim_rule(rng, md, mn))).unwrap();
+                continue;
+            }
             let rule = gen_rule(rng, md, mn);
             let variants = (2 + rng.below(5) as usize).min(left);
             for _ in 0..variants {
@@ -1195,6 +1281,7 @@ impl R {
                     RuntimeError::SystemError(SystemError::IntentError(IntentError::VerifyParentFailed)) if c.path == "vp" => "unauthorized".to_string(),
                     other => {
                         let s = format!("{:?}", other);
+                        if std::env::var("C08_SHOW_ERR").is_ok() { eprintln!("{}", s); }
                         if s.contains("get_local_ids") || s.contains("GetLocalIds") {
                             "error".to_string()
                         } else {
@@ -1209,12 +1296,57 @@ impl R {
     }
 }
 
+/// independent measure of a rule tree: (max depth of a node, number of nodes), root at depth 0
+fn measure(c: &Comp, depth: usize) -> (usize, usize) {
+    match c {
+        Comp::Basic(_) => (depth, 1),
+        Comp::Any(cs) | Comp::All(cs) => cs.iter().fold((depth, 1), |(d, n), c| {
+            let (d2, n2) = measure(c, depth + 1);
+            (d.max(d2), n + n2)
+        }),
+    }
+}
+
+impl R {
+    /// unit level: `RoleAssignmentNativePackage::verify_access_rule` on the rule itself
+    fn lim(&mut self, line: &str) -> Answer {
+        let rule = match parse_lim(line) {
+            Some(r) => r,
+            None => return Answer::ok("bad-op"),
+        };
+        let ar = self.rule(&rule);
+        let ans = match catch(|| radix_engine::object_modules::role_assignment::RoleAssignmentNativePackage::verify_access_rule(&ar)) {
+            Ok(Ok(())) => "ok".to_string(),
+            Ok(Err(RoleAssignmentError::ExceededMaxAccessRuleDepth)) => "too-deep".to_string(),
+            Ok(Err(RoleAssignmentError::ExceededMaxAccessRuleNodes)) => "too-many".to_string(),
+            Ok(Err(e)) => format!("err:{}", short(&format!("{:?}", e))),
+            Err(m) => format!("panic:{}", short(&m)),
+        };
+        // oracle: accepted iff every node is at depth <= MAX_ACCESS_RULE_DEPTH and there are <= MAX_COMPOSITE_REQUIREMENTS nodes
+        let (md, mn) = limits();
+        let within = match &rule {
+            Rule::Protected(c) => {
+                let (d, n) = measure(c, 0);
+                d <= md && n <= mn
+            }
+            _ => true,
+        };
+        if (ans == "ok") != within || ans.starts_with("err") || ans.starts_with("panic") {
+            return Answer::fail(ans.clone(), format!("limit-check:{}", ans.chars().take(12).collect::<String>()), format!("verify_access_rule answered {} but within-limits = {} for {}", ans, within, line));
+        }
+        Answer::ok(ans)
+    }
+}
+
 fn short(s: &str) -> String {
     s.chars().filter(|c| c.is_ascii_alphanumeric()).take(80).collect()
 }
 
 impl Runner for R {
     fn step(&mut self, line: &str) -> Answer {
+        if line.starts_with("lim ") {
+            return self.lim(line);
+        }
         let c = match parse_case(line) {
             Some(c) => c,
             None => return Answer::ok("bad-op"),
